@@ -292,7 +292,7 @@ def d5_formats(ctx, m):
                 key = 'input/dobs.py:%s#format[%s]' % (fname, what)
                 ctx.check(rule, key, d >= 16, '%s written with %d decimals (17 significant digits: round-trip safe for doubles)' % (what, d),
                           '%s is written with format %r: only %d significant digits, the value is not reproduced exactly on import' % (what, c.left.value, d + 1), m.loc(c))
-    ctx.floor('floating point format sites', n, 7)
+    ctx.floor('floating point format sites', n, 6)   # 7 on the reference tree, one of them in a dead branch (num = 0; if num == 0)
     ctx.check(rule, 'input/dobs.py:_import_data', 'json.loads' in unparse(m.func('_import_data')), 'numbers are parsed by a correctly rounding parser', '_import_data differs')
 
 
